@@ -75,3 +75,98 @@ def c10(run):
             run.violation("clean", [var], cv, "no whitespace, no ASCII lower case, idempotent",
                           "compact form check")
     run.correspond("variants", ops)
+
+
+# --------------------------------------------------------------------------- helpers
+def run_spec(run, name, texts, spec_op, real_accept, call):
+    """Implementation vs Spec: `real_accept(text)` against the Lean Spec's verdict on clean(text)."""
+    from corr import run_driver
+    if not texts:
+        return
+    ops = [[spec_op, hx(common.clean(t))] for t in texts]
+    out = run_driver(ops)
+    for t, o in zip(texts, out):
+        acc = real_accept(t)
+        run.count(1, tag=f"{name}: spec {'accepts' if o == 'ok T' else 'rejects'}")
+        if (o == "ok T") != acc[0]:
+            run.violation(call, [t], acc[1], "accepted" if o == "ok T" else "rejected",
+                          f"implementation vs Lean Spec ({spec_op}) on stream {name}",
+                          op=acc[2], expected_line=("ok" if o == "ok T" else "err"))
+
+
+def iban_accept(t):
+    op = ["iban.new", hx(t), "F", "F"]
+    r = real(op)
+    return (r.startswith("ok "), r, op)
+
+
+def nontrivial_iban(f, a):
+    # rejected at the very first stage (prefix characters) counts as trivial
+    return not (f[0] == "iban.new" and a == "err InvalidStructure" and len(unhx(f[1])) < 4)
+
+
+# --------------------------------------------------------------------------- C01
+@prop("C01",
+      rule="texts = valid IBANs of every country (check digits computed by the harness), single-defect "
+           "mutants over a wide alphabet (ASCII printable, all \\d and \\s code points, confusables, "
+           "surrogates), malformed texts, whitespace/case decorated variants; sweeps: every country x BBAN "
+           "position x alphabet sample, all 100 check-digit pairs per country, all 676 two-letter prefixes, "
+           "every length 0..40; non-trivial = distinct text not rejected for a short/garbled prefix",
+      note="the iff is proved for the model; model = implementation is validated by the correspondence "
+           "streams, implementation = Spec is additionally compared directly on every text")
+def c01(run):
+    S = Streams(run.seed * 1000 + 1)
+    r = S.r
+    texts = []
+    per = run.scale(8, 300)
+    for cc in S.countries:
+        for _ in range(per):
+            i = S.iban(cc, with_bank=r.random() < 0.3)
+            texts.append(i)
+            texts.append(S.mutate(i))
+            texts.append(S.decorate(S.mutate(i)) if r.random() < 0.5 else S.mutate(S.mutate(i)))
+    for _ in range(run.scale(1500, 60000)):
+        texts.append(S.malformed())
+    # sweeps
+    npos = run.scale(10, 10 ** 9)
+    for cc in S.countries:
+        i = S.iban(cc)
+        alph = S.wide if run.tier == "thorough" else r.sample(S.wide, 10) + list("0Aa ")
+        positions = list(range(4, len(i)))
+        if len(positions) > npos:
+            positions = r.sample(positions, npos)
+        for p in positions:
+            for ch in (alph if run.tier == "thorough" else r.sample(alph, 4)):
+                texts.append(i[:p] + ch + i[p + 1:])
+        b = i[4:]
+        for dd in range(100):
+            texts.append(cc + "%02d" % dd + b)
+    base = S.iban("DE")
+    for a in UPPER:
+        for b in UPPER:
+            texts.append(a + b + base[2:])
+    for cc in (S.countries if run.tier == "thorough" else r.sample(S.countries, 6)):
+        i = S.iban(cc)
+        for n in range(0, 41):
+            texts.append((i + "0" * 40)[:n])
+    if run.tier == "thorough":
+        run.exhaustive = True
+    ops = []
+    for t in texts:
+        c = common.clean(t)
+        ops.append(["iban.new", hx(t), "F", "F"])
+        ops.append(["iban.is_valid", hx(c)])
+    reals, _ = run.correspond("texts", ops, nontrivial_iban)
+    # accepted => ASCII upper alnum, at most 34; is_valid agrees with the constructor
+    for k in range(0, len(ops), 2):
+        a, b = reals[k], reals[k + 1]
+        t = unhx(ops[k][1])
+        if a.startswith("ok "):
+            c = unhx(a[3:])
+            if len(c) > 34 or any(ch not in DIGITS + UPPER for ch in c):
+                run.violation("IBAN(text)", [t], a, "compact form in [A-Z0-9]{<=34}", "alphabet/length check",
+                              op=ops[k])
+        if (a.startswith("ok ")) != (b == "ok T") or not b.startswith("ok "):
+            run.violation("is_valid", [t], b, "ok " + ("T" if a.startswith("ok ") else "F"),
+                          "is_valid vs constructor", op=ops[k + 1])
+    run_spec(run, "texts", texts, "spec.iban_valid", iban_accept, "IBAN(text)")
